@@ -633,6 +633,7 @@ type history struct {
 	seq     uint64
 	current int
 	events  []spec.Event
+	nested  []spec.NestedRec
 }
 
 func (h *history) next() uint64 { h.seq++; return h.seq }
@@ -647,7 +648,8 @@ type recMon struct {
 	count int // events delivered while armed for the current call
 	fired bool
 	armed bool
-	g     **simrt.Group
+	nested    *spec.Call
+	nestedMon string
 }
 
 func (m *recMon) Log(phase int, alg, key string, val any) {
@@ -661,12 +663,51 @@ func (m *recMon) Log(phase int, alg, key string, val any) {
 		m.fired = true
 		m.armed = false
 		switch m.fault {
+		case "nested":
+			m.runNested()
 		case "panic":
 			panic(injectedMonitorPanic("injected panic in Monitor.Log at event " + strconv.Itoa(m.at)))
 		case "goexit":
 			runtime.Goexit()
 		}
 	}
+}
+
+// runNested makes a re-entrant Layout call from inside the callback, on the same goroutine (same simulated task).
+func (m *recMon) runNested() {
+	if m.nested == nil {
+		return
+	}
+	var inner *recMon
+	name := ""
+	switch m.nestedMon {
+	case "record":
+		inner = &recMon{name: fmt.Sprintf("%s.nested", m.name), h: m.h}
+		name = inner.name
+	case "same":
+		inner = m
+		name = m.name
+	}
+	a, err := buildArgs(m.nested, monOrNil(inner))
+	if err != nil {
+		return
+	}
+	rec := spec.NestedRec{Parent: m.h.current, Monitor: name, Verdict: "OK"}
+	rec.Invoke = m.h.next()
+	func() {
+		defer func() {
+			if r := recover(); r != nil {
+				rec.Verdict = "PANIC"
+				switch r.(type) {
+				case simrt.BudgetExceeded, simrt.HarnessError, simrt.Deadlock:
+					panic(r) // simulator verdicts are not the library's: let them end the outer call
+				}
+			}
+		}()
+		_ = autog.Layout(a.src, a.opts...)
+	}()
+	rec.End = m.h.next()
+	m.h.nested = append(m.h.nested, rec)
 }
 
 func runHistory(job *spec.Job) spec.Result {
@@ -695,6 +736,7 @@ func runHistory(job *spec.Job) spec.Result {
 		}
 		if mon != nil {
 			mon.fault, mon.at, mon.count, mon.fired, mon.armed = c.Monitor.Fault, c.Monitor.At, 0, false, c.Monitor.Fault != ""
+			mon.nested, mon.nestedMon = c.Monitor.Nested, c.Monitor.NestedMon
 		}
 		var a *args
 		if c.SameAs != nil && *c.SameAs >= 0 && *c.SameAs < i {
@@ -722,6 +764,7 @@ func runHistory(job *spec.Job) spec.Result {
 		}
 	}
 	res.Events = h.events
+	res.Nested = h.nested
 	return res
 }
 
